@@ -77,6 +77,7 @@ struct Plan
     std::string prop;
     int depth = 3;
     bool sweep = true, thorough = false;
+    bool light = false;  // large complete families in the thorough tier: depth 3 and the quick-tier sweep parameters
 };
 static Plan PLAN;
 
@@ -173,10 +174,10 @@ static void explore_subject(Subject S, int rot, Local& L, const std::string& rep
     ops.push_back(op_init0());
     ops.push_back(op_initv(1));
     ops.push_back(op_initv(2));
-    ops.push_back(op_compute(r0, PLAN.thorough ? 1000 : 300, 1e-10L, GEN_RULES[rot % 6]));
-    ops.push_back(op_compute(r1, 1, 1e-6L, GEN_RULES[(rot + 1) % 6]));
-    ops.push_back(op_compute(r0, 0, 1e-10L, GEN_RULES[(rot + 3) % 6]));
-    if (PLAN.prop == "C06") ops.push_back(op_share(1, r0, PLAN.thorough ? 1000 : 300, 1e-10L, GEN_RULES[rot % 6]));
+    ops.push_back(op_compute(r0, PLAN.thorough ? 1000 : 300, std::max<LD>(1e-10L, 50 * S.eps), GEN_RULES[rot % 6]));
+    ops.push_back(op_compute(r1, 1, std::max<LD>(1e-6L, 1000 * S.eps), GEN_RULES[(rot + 1) % 6]));
+    ops.push_back(op_compute(r0, 0, std::max<LD>(1e-10L, 50 * S.eps), GEN_RULES[(rot + 3) % 6]));
+    if (PLAN.prop == "C06") ops.push_back(op_share(1, r0, PLAN.thorough ? 1000 : 300, std::max<LD>(1e-10L, 50 * S.eps), GEN_RULES[rot % 6]));
     try
     {
         PropOracle<K> po(PLAN.prop, S, ops, L, replay);
@@ -191,7 +192,7 @@ static void explore_subject(Subject S, int rot, Local& L, const std::string& rep
             static const long MAXIT_Q[4] = {0, 1, 3, 300};
             const LD TOL_T[5] = {4 * S.eps, 1e-14L, 1e-10L, 1e-6L, 1e-2L};
             const LD TOL_Q[3] = {4 * S.eps, 1e-10L, 1e-2L};
-            const bool full = PLAN.thorough;
+            const bool full = PLAN.thorough && !PLAN.light;
             const int nm = full ? 6 : 4, nt = full ? 5 : 3;
             std::vector<OpDesc> sops;
             const size_t nstart = full ? S.starts.size() : std::min<size_t>(S.starts.size(), 5);
@@ -206,6 +207,7 @@ static void explore_subject(Subject S, int rot, Local& L, const std::string& rep
             for (int vi = 0; vi <= ninit; vi++)
                 for (int ci = ninit + 1; ci < int(sops.size()); ci++)
                 {
+                    if (sops[ci].tol < 4 * S.eps) continue;  // tolerances below ~eps are only asked of a scalar type that can deliver them
                     Inst<K> inst(S);
                     L.traces++;
                     Obs o0 = inst.observe();
@@ -420,6 +422,8 @@ int main(int argc, char** argv)
             run_matrix(A, "comp" + num(deg) + ":" + num(idx), idx, K_DENSE | (idx % 3 == 0 ? K_REAL | K_CPLX : 0), L, "comp" + num(deg) + "#" + num(idx));
         });
     }
+    const int depth_saved = PLAN.depth;
+    if (!q) { PLAN.light = true; PLAN.depth = std::min(PLAN.depth, 3); }
     R.run("gint4", gint_count(4, 2), [&](uint64_t idx, Local& L) {
         if (asan_skip(idx)) { L.count("skipped_asan_sampling"); return; }
         if (q && idx % 256 != 5) { L.count("skipped_quick"); return; }
@@ -434,7 +438,9 @@ int main(int argc, char** argv)
                 for (int i = 0; i <= j; i++) { A(i, j) = LD(int(t % 3) - 1); t /= 3; }
             run_matrix(A, "tri4:" + num(idx), idx, K_DENSE, L, "tri4#" + num(idx));
         });
-    std::string rule = "E1 history search depth " + num(PLAN.depth) + " over {init(), init(v1), init(v2), compute x3" + (PLAN.prop == "C06" ? ", second-solver" : "") +
+    PLAN.light = false;
+    PLAN.depth = depth_saved;
+    std::string rule = "E1 history search depth " + num(PLAN.depth) + " (depth 3 for the complete 4x4 families) over {init(), init(v1), init(v2), compute x3" + (PLAN.prop == "C06" ? ", second-solver" : "") +
         "} + depth-2 sweep init(v);compute(rule,maxit,tol) over VEC(A) x 6 rules x maxit x tol, per (matrix, kind, every legal nev/ncv[, shift]); scalar " + SCALAR_NAME +
         "; non-trivial = compute returned >=1 pair (distinct = distinct (subject, returned bits))";
     return R.finish(rule, {"reference spectra/eigenvectors from Eigen::EigenSolver in long double (used for start vectors and shift placement only)",
